@@ -11,6 +11,8 @@ type DynamicalType interface {
 }
 
 func EventuallyCreateType(name string, param interface{}) (bool, error) {
+	registryMutex.Lock()
+	defer registryMutex.Unlock()
 	for _, dyn := range AllDynamicalTypes {
 		if dyn.MatchName(name) {
 			for _, op := range AllTypes {
